@@ -83,10 +83,10 @@ fn make_msg(rng: &mut Rng, size: usize, i: usize) -> Msg {
 
 pub fn run(cfg: &RunCfg) -> Ctx {
     let mut all = Ctx::new();
-    all.merge(par_cases(cfg, "roundtrip", cfg.n(10_000, 16 * 12000), || (), |_, rng, ctx, _| roundtrip_case(rng, ctx, false)));
+    all.merge(par_cases(cfg, "roundtrip", cfg.n(10_000, 16 * 36_000), || (), |_, rng, ctx, _| roundtrip_case(rng, ctx, false)));
     if !small() {
         // exhaustive single/double cuts: hundreds of decoder runs per case, too slow to interpret
-        all.merge(par_cases(cfg, "allcuts", cfg.n(200, 1600), || (), |_, rng, ctx, _| roundtrip_case(rng, ctx, true)));
+        all.merge(par_cases(cfg, "allcuts", cfg.n(200, 4800), || (), |_, rng, ctx, _| roundtrip_case(rng, ctx, true)));
     }
     for k in [
         "cut.inside_prefix",
